@@ -1,7 +1,9 @@
 (* C14 — results are deterministic functions of their inputs: in the model every Go map is a list whose order
-   is an arbitrary schedule; determinism = invariance under permutation.  Proofs: Proofs/DeterminismProofs.v. *)
+   is an arbitrary schedule; determinism = invariance under permutation.  Proofs: Proofs/DeterminismProofs.v, Proofs/EncoderOrder.v,
+   Proofs/EntityJsonProofs.v. *)
 From Coq Require Import List Bool Permutation.
-From Cedar Require Import Lang.Value Lang.Expr Impl.Authorize Impl.Eval Proofs.DeterminismProofs.
+From Cedar Require Import Base.Json Lang.Value Lang.Expr Impl.Authorize Impl.Eval Impl.PolicySet Impl.EntityJson Proofs.DeterminismProofs Proofs.PolicySetProofs
+  Proofs.EncoderOrder Proofs.EntityJsonProofs.
 
 (* the entity map in any insertion / iteration order, every parent set in any order *)
 Theorem C14_store_schedule : forall s1 s2, NoDup (map fst s1) -> Permutation s1 s2 -> store_equiv s1 s2.
@@ -24,6 +26,19 @@ Theorem C14_authorize_deterministic : forall en1 en2 (ps1 ps2 : list (str * poli
   dec r1 = dec r2 /\ Permutation (reasons r1) (reasons r2) /\ Permutation (errs r1) (errs r2).
 Proof. exact authorize_deterministic. Qed.
 
+(* ENCODERS.  What is written does not depend on the traversal order of a map-backed container: a policy set lists its policies in id order
+   (MarshalCedar, MarshalJSON, All) whatever order the map yields them in; an entity map document is the same for every order of the map
+   and of every parent set.  (Values: a set is written in the slot order of its table, a function of the member hashes - C11; the order can
+   differ between two equal sets built differently: known finding F16.  Schemas: every map of the schema AST is a key-sorted list in the
+   models of C17, so the encoders are functions of the map's contents by construction; the check interleaves and repeats the real encoders.) *)
+Theorem C14_policy_set_listing_order_independent : forall s1 s2 : pset, uniq s1 -> Permutation s1 s2 -> sort_by_id s1 = sort_by_id s2.
+Proof. exact sort_by_id_perm_eq. Qed.
+Theorem C14_entity_map_document_order_independent : forall print_ip ord (ukey : uid -> str), (forall a b, ukey a = ukey b -> a = b) ->
+  forall m1 m2, NoDup (map fst m1) -> Permutation m1 m2 -> enc_entity_map print_ip ord ukey m1 = enc_entity_map print_ip ord ukey m2.
+Proof. exact enc_entity_map_perm. Qed.
+
+Print Assumptions C14_policy_set_listing_order_independent.
+Print Assumptions C14_entity_map_document_order_independent.
 Print Assumptions C14_store_schedule.
 Print Assumptions C14_eval_deterministic.
 Print Assumptions C14_record_fields.
